@@ -45,7 +45,7 @@ def _entry_wf(where, entry, check_typ_parses=True, source_text=None):
             if k == "server_default" and known_active("F35"):
                 continue  # known finding F35: the SQLAlchemy column parser leaves the server_default keyword in the entry (pinned by a test)
             return "%s: unexpected key %r" % (where, k)
-    if "typ" in entry:
+    if "typ" in entry and entry["typ"] is not None:  # `typ: None` is read as "no type known" (an unannotated, undocumented parameter)
         t = entry["typ"]
         if not isinstance(t, str):
             return "%s: typ is not a str (%s)" % (where, type(t).__name__)
